@@ -264,9 +264,7 @@ void ezc3d::ParametersNS::Parameters::write(std::fstream &f) const
     // Go back to data start blank space and write the actual position
     actualPos = f.tellg();
     f.seekg(dataStartPosition);
-    nBlocksToNext = int(actualPos)/512;
-    if (int(actualPos) % 512 > 0)
-        ++nBlocksToNext;
+    nBlocksToNext = int(actualPos)/512 + 1; // DATA_START is the 1-based number of the first block of data
     f.write(reinterpret_cast<const char*>(&nBlocksToNext), ezc3d::BYTE);
     f.seekg(actualPos);
 }
